@@ -347,7 +347,10 @@ def _apply_oracles(obs, case, spec, flat, cfg, task, before_cfg, before_task, mo
             if k not in c01_seen:
                 c01_seen.add(k)
                 _v(obs, "C01", {"kind": k}, f"generation {g}: position {repr(pos)[:160]} ({reason})")
-            continue
+            # the cost must be the objective of the reported position even when that position left the search space
+            # (the harness objective is total on numeric vectors of the right shape)
+            if k not in ("out-of-bounds", "index-type", "index-range", "nan-coordinate", "inf-coordinate"):
+                continue
         true_cost = reported_cost(spec, pos, flat)
         cost = a.cost
         ok = feq(cost, true_cost) if spec.get("weights") is None else close(cost, true_cost)
